@@ -29,6 +29,7 @@ MODULES = {
     "C17": "c17_globals",
     "C18": "c18_roundtrip",
     "C19": "c19_solve",
+    "C20": "c20_config",
 }
 
 
